@@ -423,3 +423,38 @@ package storage
 //@   loop 0 invariant err == nil
 //@   loop 0 invariant forall s *segment :: s.index == old(s.index) && s.refCount == old(s.refCount)
 //@   loop 0 invariant forall k :: 0 <= k && k < len(segments) ==> segments[k] != nil && pidx(segments[k]) == 0
+//
+//@ section C14
+//
+// initialize, the one clause of its assumed contract above that is about its own code rather than about the resources it
+// opens: an open attempt that FAILS leaves the segment closed (index nil), so the next acquire tries again instead of
+// handing out a segment whose series index is already closed and whose shards are missing. Thin contract.
+//@ func context.WithValue
+//@   assumed context
+//@   pure
+//@ func common.SetPosition
+//@   assumed context
+//@   pure
+//@ func newSeriesIndex
+//@   assumed opens the series index (external)
+//@   ensures result1 == nil ==> result0 != nil
+//@ func segment.loadShards
+//@   assumed opens the shard tables (external)
+//@ func seriesIndex.Close
+//@   assumed closes the series index (external)
+//@ func errors.Wrap
+//@   assumed error wrapping
+//@   ensures result != nil
+//@ func errors.WithMessage
+//@   assumed error wrapping
+//@   ensures result != nil
+//@ func error.Error
+//@   assumed error text
+//@   pure
+//@ func segment.initialize#a-failed-open-leaves-it-closed
+//@   mode int
+//@   opt only-stated
+//@   requires s != nil
+//@   modifies s.index
+//@   ensures  failed-open-is-closed: result != nil && old(s.index) == nil ==> s.index == nil
+//@   ensures  success-is-open: result == nil ==> s.index != nil
